@@ -37,7 +37,12 @@ class SGen:
         if k == "transform":
             return {"s": "transform", "src": self.stream(depth - 1), "fn": self.fn()}
         if k == "filter":
-            return {"s": "filter", "src": self.stream(depth - 1), "fn": self.fn(), "mask": r.randrange(1, 1 << 16)}
+            d = {"s": "filter", "src": self.stream(depth - 1), "fn": self.fn(), "mask": r.randrange(1, 1 << 16)}
+            # half of the predicates take the element by value (derived from the mask so that the random stream, and
+            # with it every other choice of the seed, stays what it was): filter_stream must hand the predicate a
+            # const view and still deliver the intact element downstream
+            d["bv"] = (d["mask"] >> 7) & 1
+            return d
         if k == "via_stream":
             return {"s": "via_stream", "src": self.stream(depth - 1), "sched": self.sched()}
         if k == "type_erase" and self.no_erase:
